@@ -450,3 +450,54 @@ Section MachineProofs.
     k_count (s_cls s) = nrep (s_ctxs s) /\ (forall x, In x (k_store (s_cls s)) -> owned (s_ctxs s) x).
   Proof. intro s. destruct (run_inv ops _ inv_init) as [Hc [Hs _]]. split; assumption. Qed.
 End MachineProofs.
+
+(* ------------------------------------------------------------------ decidable side conditions *)
+Fixpoint nodupb (l : list (list N)) : bool :=
+  match l with [] => true | x :: l' => negb (mem_str x l') && nodupb l' end.
+Definition inclb (a b : list (list N)) : bool := forallb (fun x => mem_str x b) a.
+
+Lemma nodupb_sound l : nodupb l = true -> NoDup l.
+Proof.
+  induction l as [|x l IH]; intro H; [constructor|]. cbn [nodupb] in H.
+  apply andb_true_iff in H as [H1 H2]. constructor; [|apply IH; exact H2].
+  intro Hin. apply mem_str_In in Hin. rewrite Hin in H1. discriminate.
+Qed.
+
+Lemma inclb_sound a b : inclb a b = true -> forall x, In x a -> In x b.
+Proof.
+  unfold inclb. rewrite forallb_forall. intros H x Hx. apply mem_str_In. apply H. exact Hx.
+Qed.
+
+(* ------------------------------------------------------------------ __init__ arguments *)
+Lemma init_kwargs_spec {V} tx_attrs (attrs : list (list N * V)) kv :
+  In kv (init_kwargs tx_attrs attrs) <-> In kv attrs /\ (In (fst kv) tx_attrs \/ fst kv = parent_key).
+Proof.
+  unfold init_kwargs. rewrite filter_In, orb_true_iff, mem_str_In, str_eqb_eq. tauto.
+Qed.
+
+Lemma filter_all {A} (p : A -> bool) l : (forall x, In x l -> p x = true) -> filter p l = l.
+Proof.
+  induction l as [|x l IH]; intro H; [reflexivity|]. cbn [filter].
+  rewrite (H x (or_introl eq_refl)). f_equal. apply IH. intros y Hy. apply H. right. exact Hy.
+Qed.
+
+(* what __init__ receives for an object whose storage was filled by the loader *)
+Lemma init_kwargs_collected {V} tx_attrs (vals : list (list N * V)) pos pos_end parent :
+  (forall kv, In kv vals -> In (fst kv) tx_attrs) ->
+  ~ In tx_pos_key tx_attrs -> ~ In tx_pos_end_key tx_attrs ->
+  init_kwargs tx_attrs (collected vals pos pos_end parent)
+  = vals ++ match parent with Some p => [(parent_key, p)] | None => [] end.
+Proof.
+  intros Hvals Hp Hpe. unfold init_kwargs, collected. rewrite !filter_app. f_equal.
+  - apply filter_all. intros kv Hkv. apply orb_true_iff. left. apply mem_str_In. apply Hvals. exact Hkv.
+  - cbn [filter fst]. 
+    assert (E1 : mem_str tx_pos_key tx_attrs = false).
+    { destruct (mem_str tx_pos_key tx_attrs) eqn:E; [apply mem_str_In in E; contradiction | reflexivity]. }
+    assert (E2 : mem_str tx_pos_end_key tx_attrs = false).
+    { destruct (mem_str tx_pos_end_key tx_attrs) eqn:E; [apply mem_str_In in E; contradiction | reflexivity]. }
+    rewrite E1, E2.
+    replace (str_eqb tx_pos_key parent_key) with false by (vm_compute; reflexivity).
+    replace (str_eqb tx_pos_end_key parent_key) with false by (vm_compute; reflexivity).
+    cbn [orb app]. destruct parent as [p|]; [|reflexivity].
+    cbn [filter fst]. rewrite str_eqb_refl, orb_true_r. reflexivity.
+Qed.
